@@ -106,7 +106,9 @@ def sortBy {α : Type} (k : α → Nat) : List α → List α
   | x :: xs => insertBy k x (sortBy k xs)
 
 /-- the equation as `Model.graph` receives it: left-hand side, references in the order the set iteration gives them
-    (before / after number substitution — `obs e` is what SymPy leaves after substitution, observed not modelled) -/
+    (before / after number substitution — `obs e` is what SymPy leaves after substitution, observed not modelled).
+    `C09.Eqn.hasQ` stays at its default `true` ("`refsNum` counts"): every C15 theorem holds for ALL `obs`, and an
+    equation without a `Quantity`, which `graph_with_sympy_numbers` skips, is the instance `obs e = e.rhs.leaves`. -/
 def toEqn (cx : Ctx) (π : Adv) (obs : FlatEq → List (Lhs VRef)) (e : FlatEq) : C09.Eqn :=
   { lhs := cx.num e.lhs
     refs := π.refs (cx.num e.lhs) (e.rhs.leaves.map cx.num)
